@@ -325,6 +325,7 @@ DRIVERS = {
     "driver": dict(name="driver", extract_v="theories/Extract/Extract.v", modname="model"),
     "idriver": dict(name="idriver", extract_v="theories/Extract/ExtractInterval.v", modname="imodel"),
     "sdriver": dict(name="sdriver", extract_v="theories/Extract/ExtractSolver.v", modname="smodel"),
+    "qdriver": dict(name="qdriver", extract_v="theories/Extract/ExtractQef.v", modname="qmodel"),
 }
 
 
